@@ -35,7 +35,10 @@ def lowerKV (p : KV) : KV := ⟨p.key, p.delim, p.val.toLower⟩
 
 def nextQ (q : Quirks) (st : State) : Stmt → State
   | .composite kvs =>
-    { st with comp := compProps (if q.lowerCompositeValues then kvs.map lowerKV else kvs) }
+    -- (the reader skips every shape line, the composite header included, while no frame is active; the
+    -- reference reads the header all the same, which cannot be observed unless F106 is on)
+    if q.badLastMemberKeepsComposite && st.frame.isNone then st
+    else { st with comp := compProps (if q.lowerCompositeValues then kvs.map lowerKV else kvs) }
   | .badShape => if q.badLastMemberKeepsComposite then st else { st with comp := [] }
   | s => next st s
 
@@ -46,13 +49,14 @@ def runQ (q : Quirks) : State → List Stmt → List Region
 def interpQ (q : Quirks) (toks : List Tok) : List Region := runQ q init (stmtsOf toks)
 
 /-- the inputs on which the deviations cannot show: every composite header has lower-case values
-already (when F105 is on) and no unsupported shape without `||` stands inside an open composite
-(when F106 is on).  Decidable, evaluated along the reference's own state. -/
+already (when F105 is on) and no unsupported shape without `||` stands inside an open composite,
+nor a composite header where no frame is active (when F106 is on).  Decidable, evaluated along the reference's own state. -/
 def quirkFree (q : Quirks) : State → List Stmt → Bool
   | _, [] => true
   | st, s :: r =>
     (match s with
-     | .composite kvs => !q.lowerCompositeValues || decide (kvs.map lowerKV = kvs)
+     | .composite kvs => (!q.lowerCompositeValues || decide (kvs.map lowerKV = kvs)) &&
+                         (!q.badLastMemberKeepsComposite || st.frame.isSome)
      | .badShape => !q.badLastMemberKeepsComposite || decide (st.comp = [])
      | _ => true) && quirkFree q (next st s) r
 
